@@ -215,3 +215,38 @@ def check_interp_options(ctx, rule, module_names, floor):
                     signature="assume_sorted", nontrivial=False,
                 )
     ctx.floor(rule, n, floor, "interp1d call sites")
+
+
+def handrolled_trapezoid(it, value_nf, roots):
+    """Recognise a hand-written cumulative trapezoid rule  cumsum( 1/2 (y[j+1] + y[j]) (x[j+1] - x[j]) ).
+    Returns ('ok', y_nf, x_nf) | ('bad', reason, None) | ('none', None, None)."""
+    J1 = nf.add(nf.sym("@J"), nf.ONE)
+    Jn = nf.sym("@J")
+    cands = [a for a in nf.atoms(value_nf) if a[0] == "fn" and a[1] in ("cumsum", "numpy.cumsum") and a[2]]
+    for a in cands:
+        arg = it.single_atom(nf.unkey(a[2][0]))
+        if arg is None or arg[0] != "fn" or arg[1] != "vec":
+            continue
+        gen = nf.unkey(arg[2][0])
+        overrides = arg[2][2:]
+        if overrides:
+            return "bad", "individual panels of the summed vector are overridden (" + nf.show(nf.unkey(overrides[0]), 40) + ")", None
+        # abscissa: an indexed root variable x[j+1]
+        xs = [x for x in nf.atoms(gen) if x[0] == "fn" and x[1] == "[]" and len(x[2]) == 2 and nf.unkey(x[2][1]) == J1]
+        xroot = None
+        for x in xs:
+            base = nf.unkey(x[2][0])
+            if is_root_variable(it, Num(base), roots):
+                xroot = base
+        if xroot is None:
+            return "bad", "no panel width x[j+1] - x[j] over the independent variable found in the summed panels", None
+        dx = nf.sub(nf.fn("[]", xroot, J1), nf.fn("[]", xroot, Jn))
+        # ordinate candidates: every y with y[j+1] occurring in the panel (no polynomial division needed)
+        ys = [y for y in nf.atoms(gen) if y[0] == "fn" and y[1] == "[]" and len(y[2]) == 2 and nf.unkey(y[2][1]) == J1 and nf.unkey(y[2][0]) != xroot]
+        for y in sorted(set(ys), key=repr):
+            ynf = nf.unkey(y[2][0])
+            mean = nf.scale(nf.add(nf.fn("[]", ynf, J1), nf.fn("[]", ynf, Jn)), nf.F(1, 2))
+            if nf.equal(gen, nf.mul(mean, dx)):
+                return "ok", ynf, xroot
+        return "bad", "panel is not 1/2 (y[j+1] + y[j]) * (x[j+1] - x[j]) with the signed difference: " + nf.show(gen, 200), None
+    return "none", None, None
